@@ -39,23 +39,25 @@ Qed.
 
 Lemma read_alloc h vs : read (h ++ vs) (seq (length h) (length vs)) = vs.
 Proof.
-  unfold Cache.read. apply nth_ext with (d := dV) (d' := dV).
-  - rewrite map_length, seq_length. reflexivity.
-  - intros n Hn. rewrite map_length, seq_length in Hn.
-    rewrite nth_indep with (d' := (fun c => nth c (h ++ vs) dV) 0) by (rewrite map_length, seq_length; exact Hn).
-    rewrite map_nth. rewrite seq_nth by exact Hn. rewrite app_nth2 by lia. f_equal. lia.
+  revert h. induction vs as [|v vs IH]; intro h; [reflexivity|].
+  cbn [length seq]. unfold Cache.read. cbn [map]. f_equal.
+  - apply nth_middle.
+  - replace (h ++ v :: vs) with ((h ++ [v]) ++ vs) by (rewrite <- app_assoc; reflexivity).
+    replace (S (length h)) with (length (h ++ [v])) by (rewrite app_length; cbn; lia).
+    apply IH.
+Qed.
+
+Lemma nth_map_seq {A} (f : nat -> A) n i d : i < n -> nth i (map f (seq 0 n)) d = f i.
+Proof.
+  intro Hi. rewrite (nth_indep _ d (f 0)) by (rewrite map_length, seq_length; exact Hi).
+  rewrite (map_nth f (seq 0 n) 0 i). rewrite seq_nth by exact Hi. reflexivity.
 Qed.
 
 Lemma length_upd h r v : length (upd h r v) = length h.
 Proof. unfold Cache.upd. rewrite map_length, seq_length. reflexivity. Qed.
 
 Lemma nth_upd h r v i : i < length h -> nth i (upd h r v) dV = if Nat.eqb i r then v else nth i h dV.
-Proof.
-  intro Hi. unfold Cache.upd.
-  rewrite nth_indep with (d' := (fun j => if Nat.eqb j r then v else nth j h dV) 0)
-    by (rewrite map_length, seq_length; exact Hi).
-  rewrite map_nth. rewrite seq_nth by exact Hi. reflexivity.
-Qed.
+Proof. intro Hi. unfold Cache.upd. rewrite nth_map_seq by exact Hi. reflexivity. Qed.
 
 Lemma read_upd_other h r v cells :
   Forall (fun x => x < length h) cells -> ~ In r cells -> read (upd h r v) cells = read h cells.
@@ -132,7 +134,7 @@ Proof.
           - unfold alloc in R. destruct (reload (g ++ read g cells1) l) as [h3 l3] eqn:R3. injection R as <- <-.
             destruct (IHl _ _ _ R3) as [t ->]. exists (read g cells1 ++ t). rewrite app_assoc. reflexivity. }
         destruct Hext as [t ->]. rewrite read_app.
-        -- rewrite <- Lr. apply read_alloc.
+        -- apply read_alloc.
         -- apply Forall_forall. intros x Hx. apply in_seq in Hx. rewrite app_length. lia.
       * apply Forall_forall. intros x Hx. apply in_seq in Hx. lia.
     + destruct (S2 c cells' Hin) as [(cells & Hc & Er) Fr]. split.
@@ -271,6 +273,21 @@ Proof.
   cbn [Nat.ltb Nat.leb length nth]. cbn [upd length seq map Nat.eqb nth heap cache conf held].
   cbn [lookup]. rewrite ckeqb_refl. cbn [read map nth build app length].
   eexists _, _. split; [reflexivity|]. split; reflexivity.
+Qed.
+
+(* L0vv is handed through from the cache (Lij does not compute with it) *)
+Hypothesis passthrough : forall c k cont, nth 0 (comp_result c k cont) dV = nth 1 cont dV.
+
+Theorem alias_refuted_history c0 k v :
+  v <> nth 1 (comp_cache c0 (ck k)) dV ->
+  exists ops,
+    ~ Forall (fun x => snd x = pure V dV key ckey cfg ck comp_cache comp_result current_modes (fst (fst x)) (snd (fst x)))
+        (run V dV key ckey cfg ck ckeqb cfgeqb comp_cache comp_result current_modes (init V ckey cfg c0) ops).
+Proof.
+  intro N. exists [Lij k; Mutate 0 0 v; Lij k].
+  destruct (alias_refuted c0 k v) as (obs1 & obs2 & E & _ & E2). rewrite E.
+  intro F. apply Forall_inv_tail in F. apply Forall_inv in F. cbn [fst snd] in F.
+  apply N. rewrite <- E2, F. unfold pure. cbn [current_modes length seq map nth]. apply passthrough.
 Qed.
 
 End Refuted.
